@@ -82,6 +82,24 @@ fn build_fileset(ctx: &Ctx, acc: &mut Acc, n_gen: u64) -> FileSet {
             }
         }
     }
+    // same-length siblings: byte-preserving edits that change findings (a cache keyed by anything but the content must not confuse them)
+    let edits: [(&str, &str); 8] = [(">=", "> "), ("<=", "< "), ("&&", "||"), (" * 2", " * 3"), (" / 4", " / 5"), ("++", "--"), ("== address(0)", "== address(1)"), ("transfer(", "transfeR(")];
+    let n0 = texts.len();
+    for i in 0..n0 {
+        let mut t = texts[i].clone();
+        let mut changed = false;
+        for (a, b) in edits.iter() {
+            if let Some(p) = t.find(a) {
+                t.replace_range(p..p + a.len(), b);
+                changed = true;
+            }
+        }
+        if changed && t.len() == texts[i].len() && t != texts[i] && crate::dets::parses(&t) {
+            names.push(format!("{}~same-length-variant", names[i]));
+            texts.push(t);
+            acc.cov("files:same-length-variants");
+        }
+    }
     // baselines in parallel (one fresh process per file)
     let results: std::sync::Mutex<Vec<(usize, Result<BTreeMap<&'static str, Option<Lines>>, String>)>> = std::sync::Mutex::new(vec![]);
     let next = std::sync::atomic::AtomicUsize::new(0);
@@ -166,6 +184,15 @@ pub fn run(ctx: &Ctx) -> i32 {
                 // immediate repetition
                 observe(&fs, fi, det, fno, "sequential-repeat", acc);
             }
+            if rng.chance(1, 3) {
+                // a different content of the SAME byte length right afterwards, with the SAME file number
+                let vname = format!("{}~same-length-variant", fs.names[fi]);
+                if let Some(vi) = fs.names.iter().position(|n| *n == vname) {
+                    acc.cov("same-length-different-content-same-file_number");
+                    observe(&fs, vi, det, fno, "sequential-same-length-sibling", acc);
+                    observe(&fs, fi, det, fno, "sequential-same-length-sibling", acc);
+                }
+            }
         }
         if k == 0 {
             acc.sample(json!({"history": "sequential", "calls": len, "shared_files": small.iter().map(|i| fs.names[*i].clone()).collect::<Vec<_>>()}));
@@ -218,6 +245,22 @@ pub fn run(ctx: &Ctx) -> i32 {
                 }
             }
         }
+        // a different file under the SAME name in another sub-directory
+        let mut namesake: Option<usize> = None;
+        if rng.chance(1, 3) {
+            let mut sj = rng.below(nfiles);
+            let mut tries = 0;
+            while (fs.base[sj].values().any(|v| v.is_none()) || sj == fi) && tries < 20 {
+                sj = rng.below(nfiles);
+                tries += 1;
+            }
+            if sj != fi && fs.base[sj].values().all(|v| v.is_some()) {
+                std::fs::create_dir_all(format!("{}/vendor", root)).unwrap();
+                std::fs::write(format!("{}/vendor/Probe.sol", root), &fs.texts[sj]).unwrap();
+                namesake = Some(sj);
+                acc.cov("directory:same-name-in-another-sub-directory");
+            }
+        }
         let all = all_dets();
         let mut pats: Vec<Det> = all.iter().filter(|_| rng.chance(2, 3)).copied().collect();
         rng.shuffle(&mut pats);
@@ -236,6 +279,22 @@ pub fn run(ctx: &Ctx) -> i32 {
                     }
                     for d in &pats {
                         let exp = fs.base[fi].get(d.name()).cloned().flatten().unwrap_or_default();
+                        if probe_name == "Probe.sol" && namesake.is_some() {
+                            // two files share the name: compare the multiset of line sets reported under that name
+                            let exp2 = fs.base[namesake.unwrap()].get(d.name()).cloned().flatten().unwrap_or_default();
+                            let mut want: Vec<Vec<i32>> = [exp.clone(), exp2].iter().filter(|s| !s.is_empty()).map(|s| s.iter().copied().collect()).collect();
+                            want.sort();
+                            let mut have: Vec<Vec<i32>> = found.iter().filter(|f| f.0 == d.name() && f.1 == probe_name).map(|f| f.2.clone()).collect();
+                            have.sort();
+                            acc.eval();
+                            if want != have {
+                                acc.violation(
+                                    format!("directory-namesake:{}", d.name()),
+                                    json!({"file": fs.names[fi], "namesake": fs.names[namesake.unwrap()], "detector": d.name(), "expected_line_sets_under_the_name": want, "observed": have}),
+                                );
+                            }
+                            continue;
+                        }
                         let got: Lines = found.iter().filter(|f| f.0 == d.name() && f.1 == probe_name).flat_map(|f| f.2.iter().copied()).collect();
                         acc.eval();
                         if got != exp {
